@@ -10,7 +10,7 @@ from .. import batch as B, budget, par
 from ..repo import conditionalrewards as CR
 
 PROP = "C16"
-STEMS = ["g", "g_1", "robot_1_w2_l2", "a1_b2_c3"]
+STEMS = ["g", "g_1", "robot_1_w2_l2", "a1_b2_c3", "coin_game_2_copy", "py_warmup"]
 STYLES = ["repr", "generator", "expressions"]
 _CACHE = {}
 
@@ -90,7 +90,7 @@ def work(shard):
 
 
 RULE = ("input files = every ordered selection of 0..k games from the 7-game batch alphabet (solvable, unsolvable, malformed; None strategies, "
-        "empty strategy lists, a 42-state board game for long float vectors) x 4 file stems x 3 textual renderings of the same dictionary "
+        "empty strategy lists, a 42-state board game for long float vectors) x 6 file stems (underscores, digits, stems ending in 'p'/'y') x 3 textual renderings of the same dictionary "
         "(plain repr, pretty-printed with a comment preamble, arithmetic expressions instead of literals); each is run through the real "
         "main() -f inputs/<stem>.py -s in a scratch directory and the report is parsed by an independent parser; non-trivial = the file "
         "contains a failing game, a game with None/empty strategy entries or the 42-state game")
@@ -109,7 +109,7 @@ def run(ctx):
             else:
                 # quick: pairs get every stem and every style, but not their full product
                 i = len(files)
-                combos = [(STEMS[i % 4], STYLES[i % 3]), (STEMS[(i + 1) % 4], STYLES[(i + 1) % 3])]
+                combos = [(STEMS[i % 6], STYLES[i % 3]), (STEMS[(i + 1) % 6], STYLES[(i + 1) % 3])]
             for stem, style in combos:
                 files.append((p, stem, style))
     chunks = [files[i::ctx.jobs * 2] for i in range(ctx.jobs * 2)]
